@@ -377,3 +377,85 @@ Definition t_render (o : otab) (s : text) : res text :=
   py_render nat (t_kw o) (t_attr o) (t_iint o) (t_istr o) (t_conv o) (t_fmt o) s.
 Definition t_spec (o : otab) (s : text) : res text :=
   spec_process nat (t_kw o) (t_attr o) (t_iint o) (t_istr o) (t_conv o) (t_fmt o) s.
+
+(* ------------------------------------------------------------------------------------------------------------
+   5. Format strings as trees (used to state for which format strings the regex rewrite is right).
+   A format string is a sequence of: a literal character other than a brace, an escaped brace, or a replacement field
+   with a name, an optional conversion and an optional spec which is again such a sequence. *)
+
+Inductive tok :=
+| TChr (c : cp)
+| TEsc (c : cp)                                   (* c c : an escaped brace *)
+| TFld (name : text) (conv : option cp) (spec : option (list tok)).
+
+Fixpoint unparse_tok (t : tok) : text :=
+  match t with
+  | TChr c => [c]
+  | TEsc c => [c; c]
+  | TFld n cv sp =>
+      c_lb :: n ++ (match cv with Some c => [c_bang; c] | None => [] end)
+           ++ (match sp with Some l => c_colon :: flat_map unparse_tok l | None => [] end) ++ [c_rb]
+  end.
+Definition unparse (l : list tok) : text := flat_map unparse_tok l.
+
+Definition plain_char (c : cp) : bool := negb (N.eqb c c_lb) && negb (N.eqb c c_rb).
+Definition name_char (c : cp) : bool :=
+  negb (N.eqb c c_lb) && negb (N.eqb c c_rb) && negb (N.eqb c c_colon) && negb (N.eqb c c_bang)
+  && negb (N.eqb c c_lsq) && negb (N.eqb c c_rsq).
+Definition conv_char (c : cp) : bool :=
+  negb (N.eqb c c_lb) && negb (N.eqb c c_rb) && negb (N.eqb c c_colon) && negb (N.eqb c c_dot).
+Definition spec_plain_tok (t : tok) : bool :=
+  match t with TChr c => plain_char c && negb (is_space c) | _ => false end.
+Definition not_int (n : text) : bool := match get_integer n with Ok None => true | _ => false end.
+
+(* The format strings for which the rewrite is proved right (top = not inside a format spec):
+   - literal characters and, at top level, escaped braces;
+   - fields whose name has no brace, colon, bang or bracket;
+   - a field with a '.' in its name has no conversion; it has no spec, or (top level only) a spec made of plain
+     non-whitespace characters; its name does not start with 19+ digits (get_integer overflow);
+   - any other field: conversion character other than brace, colon, dot; spec = such a sequence again. *)
+Fixpoint safe_tok (top : bool) (t : tok) : bool :=
+  match t with
+  | TChr c => plain_char c
+  | TEsc c => top && (N.eqb c c_lb || N.eqb c c_rb)
+  | TFld n cv sp =>
+      forallb name_char n &&
+      if has_dot n then
+        not_int n &&
+        match cv, sp with
+        | None, None => true
+        | None, Some l => top && forallb spec_plain_tok l
+        | _, _ => false
+        end
+      else
+        match cv with Some c => conv_char c | None => true end &&
+        match sp with
+        | None => true
+        | Some l => (fix all (l : list tok) : bool := match l with [] => true | x :: r => safe_tok false x && all r end) l
+        end
+  end.
+
+(* what must hold of the text that FOLLOWS a token:
+   - after an escaped open brace: no '.' before the next ':' or close brace (else the regex matches at the escape);
+   - after a dotted field with a spec: no close brace before the next whitespace (else group 2 runs past the field). *)
+Definition follow_ok (t : tok) (rest : text) : bool :=
+  match t with
+  | TEsc c => if N.eqb c c_lb then negb (has_dot (fst (span_run rest))) else true
+  | TFld n _ (Some _) => if has_dot n then negb (has_c c_rb (fst (span_nonws rest))) else true
+  | _ => true
+  end.
+
+Fixpoint safe_list (l : list tok) : bool :=
+  match l with
+  | [] => true
+  | t :: r => safe_tok true t && follow_ok t (unparse r) && safe_list r
+  end.
+
+(* the rewrite, on trees *)
+Fixpoint rw_tok (t : tok) : tok :=
+  match t with
+  | TFld n cv sp =>
+      if has_dot n then TFld (t_sqlfluff ++ c_lsq :: n ++ [c_rsq]) cv sp
+      else TFld n cv (match sp with Some l => Some (map rw_tok l) | None => None end)
+  | _ => t
+  end.
